@@ -137,6 +137,15 @@ pub fn worker_main(args: &[String]) -> i32 {
         print!("{}", c05::process_batch(args[1].parse().unwrap_or(0), args[2].parse().unwrap_or(10)));
         return 0;
     }
+    if !args.is_empty() && args[0] == "bench-new-curated" {
+        let t0 = std::time::Instant::now();
+        for _ in 0..20 {
+            let g = harper_core::linting::LintGroup::new_curated(harper_core::FstDictionary::curated(), harper_core::Dialect::American);
+            std::hint::black_box(&g);
+        }
+        println!("LintGroup::new_curated: {:?} each", t0.elapsed() / 20);
+        return 0;
+    }
     if !args.is_empty() && args[0] == "c06-list" {
         c06::list_flagged_entries();
         return 0;
